@@ -206,9 +206,10 @@ PROPS["C07"] = dict(
 
 PROPS["C19"] = dict(
     modules=["Hub.Props.C19"],
-    gens=["store-c19"],
+    gens=["store-c19", "c19race"],
     rule=STORE_RULE + "mixed with dataset create / delete / rename / re-create and reopen; after every op the catalogue: listed names, and for every name ever used (plus an "
-         "unknown one and core.Dataset) the meta entity's deleted flag, name, public namespaces and items counter, compared with the model's registry and distinct-id count; "
+         "unknown one and core.Dataset) the meta entity's deleted flag, name, public namespaces and items counter, compared with the model's registry and distinct-id count; (c19.renamerace) a forced schedule in a child process: a rename is parked between moving the record and "
+         "storing the new name's meta entity while a writer stores a new entity into the dataset, afterwards the counter must equal the number of distinct ids; "
          "non-trivial = at least 3 versions and 2 queries",
     trusted=STORE_TRUST,
     assumptions=["concurrent writers to different datasets funnel through core.Dataset under its write lock (lock facts under C05); DeleteDataset does not hold the dataset's lock"],
